@@ -16,7 +16,7 @@
                generated case depends on it; numpy raises or builds zero-sized sub-arrays there).
    Names are prefixed (lb_/l_/lv_) because Model/Uamiv.v is imported next to this file.
    No proofs here. *)
-From PNC Require Import Base.Util Base.Words Gen.Camx Model.Uamiv Model.CamxMet.
+From PNC Require Import Base.Util Base.Words Gen.Camx Model.Uamiv Model.CamxMet Model.YearEnd.
 From Coq Require Import String.
 Import Coq.Lists.List. Import ListNotations.
 Local Open Scope Z_scope.
@@ -290,7 +290,7 @@ Definition lb_etflag (v : lview) (ehours : list Z) : list (Z * Z) :=
 
 (* ---- the writer (lateral_boundary/Write.py ncf2lateral_boundary) -----------------------------------
    It never uses ETFLAG: iedate = ibdate ; etime = btime + 1 ; iedate += etime // 24 ; etime -= (etime // 24) * 24,
-   the same derivation as Model/Uamiv.v derive_end (no year roll-over on the YYJJJ date); the file header takes
+   with the day-of-year carry into the next two-digit year (as repaired by a9b6e29): Model/YearEnd.v derive_th_r; the file header takes
    ibdate/btime of the first and iedate/etime of the last time record. When the input file has no _boundary_def
    (an in-memory file) the edge definitions are generated:
    ([0,0,0,0] + [icell,0,0,0] * (nbcell - 2) + [0,0,0,0])[:nbcell * 4] with icell = 2 (WEST, SOUTH), NCOLS-1 (EAST),
@@ -303,7 +303,7 @@ Definition std_edges (nx ny : Z) : quad :=
   Quad (std_edge ny 2) (std_edge ny (nx - 1)) (std_edge nx 2) (std_edge nx (ny - 1)).
 
 Definition lb_derive (l : lbdy) (bhours : list Z) (gen_edges : bool) : lbdy :=
-  let sts := map (fun p => (derive_th (fst (fst p)) (snd p), snd (fst p))) (combine (l_steps l) bhours) in
+  let sts := map (fun p => (derive_th_r (fst (fst p)) (snd p), snd (fst p))) (combine (l_steps l) bhours) in
   let lastth := last (map fst sts) [0; 0; 0; 0] in
   let firstth := hd [0; 0; 0; 0] (map fst sts) in
   {| l_name := l_name l; l_note := l_note l; l_itzon := l_itzon l;
